@@ -225,6 +225,20 @@ CLAIMED['C04'] = dict(
           "values, residuals vanish at returned roots); root_scalar/root/fixed_point are not modelled."),
     ref="DESIGN.md section 4 C04")
 
+CLAIMED['C08'] = dict(
+    technique="Coq proofs over Q about a Sutherland-Hodgman model of the strip clipping (induction over the edge walk), equality of the regenerated constructions (T-K, T-K2), T-A for the default width; model tied to shapely by exact-rational correspondence; search over real passes",
+    text=("The regenerated construction of Profile.from_groove equals the regenerated two-roll contour construction (same contours, order, "
+          "clipping), hence the same shape for whatever GEOS computes; default width = usable width (T-A).  For the clipping model: no vertex "
+          "outside the prescribed strip; every vertex is a vertex of the opening or lies on one of its edges between the end points; the width "
+          "is exactly the prescribed one whenever the opening reaches that far on both sides; nothing is cut when the opening is narrower; the "
+          "pass-side and profile-side over-width tests use the same regenerated factor and accept/reject the same widths.  Partial: three-roll "
+          "passes, refine_cross_section, inclusion of the whole polygon rather than its vertices, and the error itself are decided by the "
+          "search over real passes (all grooves x gaps x seven widths, lopsided spline grooves, re-solved passes)."),
+    note=("Trusted: Coq kernel (Q part closed under the global context; the construction equality uses PassGeo over R with the Reals axioms); "
+          "translators T-A, T-K, T-K2; Clip.v hand-written, tied to shapely.clip_by_rect by vm_compute correspondence on bounds and area "
+          "(edges lying in the strip border excluded: zero-width spikes); determinism of GEOS."),
+    ref="DESIGN.md section 4 C08")
+
 NOT_YET = {}
 
 
